@@ -319,6 +319,11 @@ func runC04(c *hc.Ctx) error {
 			g, poly, kind = collapsingCase(c, grids)
 		}
 		ids := randIDs(c.Rng, g)
+		if i%10 == 9 { // a few pixels on WebMercatorQuad at a deep tile matrix, |x| beyond 2^24 m
+			if dg, dp, did, ok := deepRealCase(c.Rng); ok {
+				g, poly, kind, ids = dg, dp, "deep real grid", []int{did}
+			}
+		}
 		cfg := randCfg(c.Rng)
 		cfg.IgnoreOutsideGrid = false
 		evalC04(c, g, poly, kind, ids, cfg)
